@@ -100,6 +100,22 @@ func appendAncestors(cursor store.Cursor, result []store.Cursor) []store.Cursor 
 	return appendAncestors(cursor.Parent(), result)
 }
 
+// childIndex returns the index of cursor in its parent's children, or -1 if it
+// is not one of them (the root, attributes and namespaces are not).
+func childIndex(cursor store.Cursor) int {
+	if cursor.Pos() == 0 {
+		return -1
+	}
+
+	for i, c := range cursor.Parent().Children() {
+		if c.Pos() == cursor.Pos() {
+			return i
+		}
+	}
+
+	return -1
+}
+
 func selectDescendant(nodeSet NodeSet) Result {
 	result := make([]store.Cursor, 0)
 
@@ -141,24 +157,16 @@ func selectFollowing(nodeSet NodeSet) Result {
 }
 
 func appendFollowing(cursor store.Cursor, result []store.Cursor) []store.Cursor {
-	parent := cursor.Parent()
-
-	if parent.Pos() == 0 {
+	if cursor.Pos() == 0 {
 		return result
 	}
 
-	found := false
+	parent := cursor.Parent()
 
-	for _, i := range parent.Children() {
-		if i.Pos() == cursor.Pos() {
-			found = true
-			continue
-		}
-
-		if found {
-			result = append(result, i)
-			result = appendDescendant(i, result)
-		}
+	// Attributes and namespaces are followed by all the children of their element.
+	for _, i := range parent.Children()[childIndex(cursor)+1:] {
+		result = append(result, i)
+		result = appendDescendant(i, result)
 	}
 
 	return appendFollowing(parent, result)
@@ -175,23 +183,13 @@ func selectFollowingSibling(nodeSet NodeSet) Result {
 }
 
 func appendFollowingSibling(cursor store.Cursor, result []store.Cursor) []store.Cursor {
-	parent := cursor.Parent()
+	index := childIndex(cursor)
 
-	if parent.Pos() == 0 {
+	if index < 0 {
 		return result
 	}
 
-	children := parent.Children()
-	start := 0
-
-	for i := range children {
-		if children[i].Pos() == cursor.Pos() {
-			start = i
-			break
-		}
-	}
-
-	return append(result, children[start+1:]...)
+	return append(result, cursor.Parent().Children()[index+1:]...)
 }
 
 func selectNamespace(nodeSet NodeSet) Result {
@@ -227,24 +225,17 @@ func selectPreceding(nodeSet NodeSet) Result {
 }
 
 func appendPreceding(cursor store.Cursor, result []store.Cursor) []store.Cursor {
-	parent := cursor.Parent()
-
-	if parent.Pos() == 0 {
+	if cursor.Pos() == 0 {
 		return result
 	}
 
-	found := false
-	children := parent.Children()
+	parent := cursor.Parent()
+	index := childIndex(cursor)
 
-	for i := len(children) - 1; i >= 0; i-- {
-		if children[i].Pos() == cursor.Pos() {
-			found = true
-			continue
-		}
-
-		if found {
-			result = append(result, children[i])
-			result = appendDescendant(children[i], result)
+	if index > 0 {
+		for _, i := range parent.Children()[:index] {
+			result = append(result, i)
+			result = appendDescendant(i, result)
 		}
 	}
 
@@ -262,21 +253,11 @@ func selectPrecedingSibling(nodeSet NodeSet) Result {
 }
 
 func appendPrecedingSibling(cursor store.Cursor, result []store.Cursor) []store.Cursor {
-	parent := cursor.Parent()
+	index := childIndex(cursor)
 
-	if parent.Pos() == 0 {
+	if index < 0 {
 		return result
 	}
 
-	children := parent.Children()
-	end := 0
-
-	for i := len(children) - 1; i >= 0; i-- {
-		if children[i].Pos() == cursor.Pos() {
-			end = i
-			break
-		}
-	}
-
-	return append(result, children[:end]...)
+	return append(result, cursor.Parent().Children()[:index]...)
 }
